@@ -174,6 +174,13 @@ def check_primitive(ctx, fi, spec, flags):
             ex.env[p] = sym(p) if p in (spec['eps'], spec['sens'], 'sensitivity') else Opaque(p, 'param')
     if spec.get('base') and flags.get(spec['base']) is None and spec.get('base') in flags:
         ex.env.pop(spec['base'], None)
+    # optional overrides (`sensitivity=None`: "use the built-in value"): the primitive is judged in its default configuration here,
+    # what a caller passes explicitly is judged at the call site by the budget analysis (C05)
+    for p_, d_ in fi.defaults().items():
+        if isinstance(d_, ast.Constant) and d_.value is None and p_ not in flags and p_ not in (spec['eps'], spec['quality'], spec.get('base')) \
+                and p_ in ('sensitivity',):
+            ex.flags[p_] = None
+            ex.env.pop(p_, None)
     ex.run()
     (lexpr, how), site = find_logits(ex, fi)
     label = ', '.join('%s=%s' % kv for kv in sorted(flags.items())) or 'default'
